@@ -9,7 +9,7 @@ import time
 from typing import Any, Callable, Optional
 
 VERIF = os.path.dirname(os.path.dirname(os.path.abspath(__file__)))
-EVIDENCE_DIR = os.path.join(VERIF, 'evidence')
+EVIDENCE_DIR = os.environ.get('VERIF_EVIDENCE_DIR') or os.path.join(VERIF, 'evidence')   # selftest redirects it to scratch
 REPLAY_DIR = os.path.join(EVIDENCE_DIR, 'replay')
 KNOWN_FILE = os.path.join(VERIF, 'known_findings.json')
 
